@@ -489,8 +489,43 @@ func (g *Gen) scenEvalValue() []N {
 	return append([]N{Var(x, Str("global"))}, append(body, g.hcall(Id(x), Un("typeof", Id("eval")), Dot(Id("eval"), "length")))...)
 }
 
+// for-in over an object whose properties are deleted by the loop body (12.6.4): every
+// property is visited at most once, a property deleted before it is reached is not visited,
+// deleting the property being visited or an earlier one disturbs nothing
+func (g *Gen) scenForInMutate() []N {
+	o, k := g.fresh("fo"), g.fresh("fk")
+	names := []string{"a", "b", "c", "d", "e"}[:3+g.pick(3)]
+	kv := []any{}
+	for i, n := range names {
+		kv = append(kv, n, Num(i))
+	}
+	out := []N{Var(o, Obj(kv...))}
+	if g.chance(40) { // inherited enumerable properties, one of them shadowed
+		pr := g.fresh("fp")
+		out = []N{Var(pr, Obj("z", Num(9), names[1], Num(8))), Var(o, Call(Dot(Id("Object"), "create"), Id(pr)))}
+		for i, n := range names {
+			out = append(out, Expr(Asg("=", Dot(Id(o), n), Num(i))))
+		}
+		if g.chance(50) {
+			out = append(out, g.hcall(Str("proto"), Id(pr)))
+		}
+	}
+	at := names[g.pick(len(names))]
+	dels := []N{}
+	for i := 0; i < 1+g.pick(2); i++ {
+		dels = append(dels, g.hcall(Un("delete", Dot(Id(o), names[g.pick(len(names))]))))
+	}
+	body := []N{g.hcall(Id(k)), If(Bin("===", Id(k), Str(at)), Block(dels...), nil)}
+	out = append(out, ForIn(true, k, Id(o), Block(body...)))
+	k2 := g.fresh("fk")
+	out = append(out, g.hcall(Str("after")), ForIn(true, k2, Id(o), Block(g.hcall(Id(k2), Call(Dot(Id(o), "hasOwnProperty"), Id(k2))))))
+	return out
+}
+
 func (g *Gen) scenario() []N {
-	switch g.pick(12) {
+	switch g.pick(13) {
+	case 12:
+		return g.scenForInMutate()
 	case 11:
 		return g.scenEvalValue()
 	case 9:
